@@ -22,6 +22,15 @@ from harness import core
 LEVEL = "model_checking"
 
 
+def vacuous(ck, msg):
+  """Vacuity is a machinery error - unless the code under test is already known to be wrong on
+  this run (then the missing coverage is a consequence, and the violations must be reported)."""
+  if ck.violations:
+    ck.cov.setdefault("vacuity_notes_under_violation", []).append(msg)
+  else:
+    raise core.MachineryError(msg)
+
+
 def selftest(ck, name, rejected):
   """A binding self-test compares a corrupted expectation with the REAL code; if the code under
   test is itself wrong (violations already recorded) a corrupted expectation may coincide with
@@ -296,6 +305,14 @@ def run(ck):
   def mark(name):
     phase[name] = round(time.time() - t_last[0], 1)
     t_last[0] = time.time()
+  ck.assume("R: FD is rotation-equivariant; axis-aligned histories rotated by a seeded random orthogonal Q are "
+            "dense for the implementation and diagonal for the spec")
+  ck.assume("R: has_zeros / zeroed columns are discontinuous in the last bit where a slot is exactly empty or "
+            "two eigenvalues tie at the cut: there only the continuous observations (sketch matrix, tail, "
+            "denoted inverse) are compared; ridge>0 behaviours are replayed only where no slot is empty")
+  ck.assume("V: numpy (float64) measures eigenvalue margins of dense histories, TLC only compares them with the "
+            "tolerance carried in the trace; r is recomputed from the implementation's previous sketch")
+  ck.assume("per-step ridge of Distributed Shampoo is counted into C as the code adds it (rho V V' on stored columns)")
   # ---- M -------------------------------------------------------------------------------
   # (coverage instrumentation makes this run 4x slower; the spec has one action, so "taken" is
   # witnessed by the depth of the state graph instead)
@@ -335,7 +352,7 @@ def run(ck):
     judge(ck, jobs, res, "FD_Gen replay (direct call)", "direct64" if x64 else "direct", stats)
     mark(f"R_direct{'_x64' if x64 else ''}")
   if not stats.get("flag_checked"):
-    raise core.MachineryError("has_zeros was never checked on a full sketch")
+    vacuous(ck, "has_zeros was never checked on a full sketch")
   # binding self-test (R): corrupt the expected escaped mass of one step
   bad = copy.deepcopy(next(b for b in allb if b["cfg"]["ridge"] == 0 and b["steps"][-1]["t"] > 0))
   bad["steps"][-1]["t"] += bad["steps"][-1]["den"]
@@ -364,10 +381,13 @@ def run(ck):
                      {"job": j, "tb": r.get("tb")})
       traces.extend(r["traces"])
   mark("V_record")
+  if not traces:
+    vacuous(ck, "no measured trace was recorded")
+    return
   ck.sample({"measured_trace": {"cfg": traces[0]["cfg"], "events": traces[0]["events"][:2]}})
   verdicts = judge_measured(ck, traces, stats)
   if not stats.get("v_escaped"):
-    raise core.MachineryError("no measured step ever removed mass")
+    vacuous(ck, "no measured step ever removed mass")
   if not stats.get("mixed_hits"):
     ck.cov["mixed_size_finding_reobserved"] = False
   else:
@@ -376,7 +396,8 @@ def run(ck):
   # binding self-tests (V)
   good = [t for t, v in zip(traces, verdicts) if v["accepted"]]
   if not good:
-    raise core.MachineryError("no measured trace was accepted")
+    vacuous(ck, "no measured trace was accepted")
+    return
   t0 = copy.deepcopy(next((t for t in good if any(e["r"] > 1000 for e in t["events"])), good[0]))
   i0 = next((i for i, e in enumerate(t0["events"]) if e["r"] > 1000), 0)
   t0["events"][i0]["tnew"] += 5000
@@ -388,11 +409,3 @@ def run(ck):
   selftest(ck, "V: escaped mass off by 0.5% of the trace is rejected (tail_law)", vs[0]["verdict"] == "tail_law")
   selftest(ck, "V: covariance exceeding sketch + tail is rejected", not vs[1]["accepted"])
   selftest(ck, "V: non-orthonormal columns are rejected", not vs[2]["accepted"])
-  ck.assume("R: FD is rotation-equivariant; axis-aligned histories rotated by a seeded random orthogonal Q are "
-            "dense for the implementation and diagonal for the spec")
-  ck.assume("R: has_zeros / zeroed columns are discontinuous in the last bit where a slot is exactly empty or "
-            "two eigenvalues tie at the cut: there only the continuous observations (sketch matrix, tail, "
-            "denoted inverse) are compared; ridge>0 behaviours are replayed only where no slot is empty")
-  ck.assume("V: numpy (float64) measures eigenvalue margins of dense histories, TLC only compares them with the "
-            "tolerance carried in the trace; r is recomputed from the implementation's previous sketch")
-  ck.assume("per-step ridge of Distributed Shampoo is counted into C as the code adds it (rho V V' on stored columns)")
